@@ -553,9 +553,8 @@ func init() {
 				if m != "" {
 					return nil, m
 				}
-				if t.isVec() {
-					return nil, fmt.Sprintf("vector values of type %s selected by a scalar condition", t)
-				}
+				// a scalar bool converts implicitly to the boolean vector (MSL scalar-to-vector
+				// conversion), so select(vec, vec, bool) is accepted
 			}
 			halfUnsupported(c, x, t)
 			return t, ""
